@@ -906,13 +906,15 @@ impl World for StakingWorld {
             3 => 5,
             _ => rng.range(0, 30),
         };
-        let pb = match rng.below(6) {
+        let pb = match rng.below(9) {
             0 => BigUint::one(),
             1 => BigUint::from(5_000u32),
             2 => pow10(9) * rng.range(1, 1000),
             3 => pow10(15) * rng.range(1, 1000),
             4 => BigUint::from(rng.range(1, 100_000)),
-            _ => rng.magnitude(20),
+            5 => pow10(18) * rng.range(1, 1000),
+            6 => pow10(21) * rng.range(1, 1000),
+            _ => rng.magnitude(24),
         };
         let users = rng.range(2, 4);
         format!("epoch={epoch} block={block} dsc={dsc} apr={apr} mu={mu} pb={pb} users={users}")
@@ -1171,6 +1173,18 @@ impl World for StakingWorld {
             }
             9 => {
                 // on-behalf: user u authorises account c; c acts with tokens recording u as owner
+                // (prefer an authorised pair whose caller already holds such tokens)
+                let mut ready = vec![];
+                for (uu, cc) in self.hub_pairs.iter() {
+                    if Self::positions_of(&s, *cc).iter().any(|p| p.3 == *uu) {
+                        ready.push((*uu, *cc));
+                    }
+                }
+                if !ready.is_empty() && rng.chance(1, 2) {
+                    let (uu, cc) = *rng.pick(&ready);
+                    let pos_c: Vec<_> = Self::positions_of(&s, cc).into_iter().filter(|p| p.3 == uu).collect();
+                    return o(format!("claimBehalf {} {}", self.name(cc), Self::pick_pays(rng, &pos_c, 2).join(" ")));
+                }
                 let c = if rng.chance(1, 2) { nu + 1 } else { (u + 1) % nu };
                 let cn = self.name(c);
                 let authorised = self.hub_pairs.contains(&(u, c));
